@@ -33,6 +33,11 @@ def programs(tier, seed=0):
         for named in (True, False):
             out.append(dict(kind="rx", ptype=pt, reactants=["A"], products=["C1", "C1"], named=named))
     out.append(dict(kind="rx", ptype="general", reactants=["A", "A"], products=["B_x"], named=True, rate="kq*A^2/(1 + B_x) + t*volume"))
+    # general rates over the whole expression grammar (operator precedence, unary minus, functions)
+    for rate in ("kq*exp(-A^2/4)", "30 - B_x^2 - -A", "-(A - kq)^2 + 40", "2^-A + A^2^0.5", "kq*log(A + 1) + exp(-B_x)",
+                 "abs(A - B_x) + max(A, 2)*min(kq, B_x)", "kq*Heaviside(A - 1) + A/B_x/2 - A*B_x/(C1 + 1)",
+                 "(A + B_x)^2*volume - kq*t"):
+        out.append(dict(kind="rx", ptype="general", reactants=["A"], products=["C1"], named=True, rate=rate))
     # delays
     for dt_ in ("fixed", "gaussian", "gamma"):
         for named in (True, False):
